@@ -18,11 +18,11 @@ type recorder struct {
 	Counts   map[string]int64 `json:"counts"`
 	Nontriv  []string         `json:"nontrivial"`
 	nontriv  map[string]struct{}
-	Samples  []any            `json:"samples"`
-	Viol     []*vrec          `json:"violations"`
+	Samples  []any   `json:"samples"`
+	Viol     []*vrec `json:"violations"`
 	viol     map[string]*vrec
-	Inconcl  []string         `json:"inconclusive"`
-	Complete bool             `json:"complete"`
+	Inconcl  []string `json:"inconclusive"`
+	Complete bool     `json:"complete"`
 	sampled  map[string]int
 }
 
